@@ -239,12 +239,26 @@ def multinet_series(ctx, n_nets, n_steps):
         pp.set_user_pf_options(gas0, use_numba=False)
         src_j = int(ctx.rng.choice(list(gas0.junction.index[gas0.junction.in_service])))
         p2g_src = int(pp.create_source(gas0, src_j, 0.0, name="power to gas feed in"))
-        if H.do_run(copy.deepcopy(gas0), {})[0] != "ok":
+        # result-changing, non-default solver options given to the multinet run: they must reach every calculation
+        opts = ctx.rng.choice([{"friction_model": "colebrook"}, {"friction_model": "swamee-jain"},
+                               {"tol_m": 1e-9, "tol_p": 1e-9, "tol_res": 1e-8, "max_iter_hyd": 40},
+                               {"friction_model": "colebrook", "tol_m": 1e-8, "max_iter_hyd": 40}])
+        if H.do_run(copy.deepcopy(gas0), opts)[0] != "ok":
             continue
+        base_default, base_opts = copy.deepcopy(gas0), copy.deepcopy(gas0)
+        H.do_run(base_default, {})
+        H.do_run(base_opts, opts)
+        if hexrow(base_default.res_junction.p_bar.values) == hexrow(base_opts.res_junction.p_bar.values):
+            ctx.count("multinet_options_without_visible_effect")
         power0 = build_power(ctx.rng)
         hhv = pp.get_fluid(gas0).get_property("hhv")
         eff_g2p, eff_p2g = ctx.rng.choice([0.4, 0.5, 0.6]), ctx.rng.choice([0.6, 0.7])
-        sinks = [int(i) for i in gas0.sink.index]
+        # the coupled sink must matter: in service, at a junction that is calculated
+        import numpy as _np
+        sinks = [int(i) for i in gas0.sink.index if bool(gas0.sink.at[i, "in_service"]) and
+                 not _np.isnan(base_opts.res_junction.p_bar.at[gas0.sink.at[i, "junction"]])]
+        if not sinks:
+            continue
         g2p_sink = ctx.rng.choice(sinks)
         base_m = float(gas0.sink.at[g2p_sink, "mdot_kg_per_s"]) or 0.01
         k2m = hhv * 3600 / 1e3
@@ -264,7 +278,7 @@ def multinet_series(ctx, n_nets, n_steps):
         add_nets_to_multinet(mn, power=power, gas=gas)
         ds = DFData(prof)
         # which couplings are present: the gas net may or may not have another controller that touches it
-        variant = ["g2p", "g2p+p2g+sink", "g2p+p2g", "g2p", "p2g"][tried % 5]
+        variant = ["g2p", "g2p+p2g", "g2p+p2g+sink", "p2g"][series % 4]      # by completed series: every variant occurs
         if "sink" not in variant:
             other = []
         if "g2p" in variant:
@@ -277,7 +291,7 @@ def multinet_series(ctx, n_nets, n_steps):
             ConstControl(gas, "sink", "mdot_kg_per_s", other[0], profile_name="sink_m", data_source=ds)
         ow_g = OutputWriter(gas, steps, output_path=None, log_variables=list(gas_log))
         ow_p = OutputWriter(power, steps, output_path=None, log_variables=[("res_bus", "vm_pu"), ("res_sgen", "p_mw")])
-        replay = {"gas_spec": spec, "variant": variant, "p2g_source_junction": src_j, "g2p_sink": g2p_sink, "eff": [eff_g2p, eff_p2g],
+        replay = {"gas_spec": spec, "variant": variant, "options": opts, "p2g_source_junction": src_j, "g2p_sink": g2p_sink, "eff": [eff_g2p, eff_p2g],
                   "profile": json.loads(prof.to_json()), "steps": steps}
         # stand-alone calculations first: fresh nets carrying the row and the gas flows that follow from it
         refs, feasible = {}, True
@@ -295,7 +309,7 @@ def multinet_series(ctx, n_nets, n_steps):
                 pw.load.at[1, "p_mw"] = prof.at[t, "p2g_p_mw"] * 1.0
                 g.source.at[p2g_src, "mdot_kg_per_s"] = (pw.load.at[1, "p_mw"] * pw.load.at[1, "scaling"]) * \
                     (1e3 / (hhv * 3600)) * eff_p2g
-            if H.do_run(g, {})[0] != "ok":
+            if H.do_run(g, opts)[0] != "ok":
                 feasible = False
                 break
             ppw.runpp(pw)
@@ -304,7 +318,7 @@ def multinet_series(ctx, n_nets, n_steps):
             ctx.count("multinet_profile_infeasible")
             continue
         try:
-            run_ts_mn(mn, steps, verbose=False)
+            run_ts_mn(mn, steps, verbose=False, **opts)
         except Exception as e:  # noqa: BLE001
             ctx.violation({"kind": "multinet-ts-outcome"}, "multinet run_timeseries raised %s: %s although every step "
                           "converges stand-alone" % (type(e).__name__, str(e)[:100]), replay)
@@ -323,9 +337,9 @@ def multinet_series(ctx, n_nets, n_steps):
                     ok = False
                     bad = next(i for i, (x, y) in enumerate(zip(got, exp)) if x != y)
                     ctx.violation({"kind": "multinet-ts-step-differs", "where": var},
-                                  "multinet time series, step %d (position %d of %r): logged %s[%d] = %r, stand-alone "
-                                  "calculation of the coupled nets with that row = %r"
-                                  % (t, steps.index(t), steps, var, bad, float(ow_g.np_results[var][pos][bad]),
+                                  "multinet time series with options %r, step %d (position %d of %r): logged %s[%d] = %r, "
+                                  "stand-alone calculation of the coupled nets with that row and the same options = %r"
+                                  % (opts, t, steps.index(t), steps, var, bad, float(ow_g.np_results[var][pos][bad]),
                                      float(g[tb][c].values[bad])), replay)
             vm = ow_p.np_results["res_bus.vm_pu"][ow_p.time_step_lookup[t]]
             rows += 1
@@ -334,7 +348,7 @@ def multinet_series(ctx, n_nets, n_steps):
                 ctx.violation({"kind": "multinet-ts-step-differs", "where": "res_bus.vm_pu"},
                               "multinet time series, step %d: logged bus voltages %r, stand-alone %r"
                               % (t, vm.tolist(), pw.res_bus.vm_pu.values.tolist()), replay)
-        ctx.case({"kind": "multinet", "variant": variant, "gas": gen.describe(spec), "steps": steps,
+        ctx.case({"kind": "multinet", "variant": variant, "options": opts, "gas": gen.describe(spec), "steps": steps,
                   "eff": [eff_g2p, eff_p2g]}, True)
         ctx.count("multinet_" + variant)
         ctx.count("multinet_series")
